@@ -31,6 +31,54 @@ func fmtKT(xs []kt) string {
 
 func ktLess(a, b kt) bool { return a.k < b.k }
 
+// the same sorts on element types that are NOT comparable (a struct with a slice field; interface elements holding maps): the generic code admits
+// them, and code that compares elements with == (through `any`) panics on them. The result must be the one of the comparable instantiation.
+type ktNC struct {
+	k, t int
+	pad  []int
+}
+
+func sortNC(sorter func([]ktNC, func(a, b ktNC) bool), sorterAny func([]any, func(a, b any) bool), s []kt) ([]kt, []kt) {
+	nc := make([]ktNC, len(s))
+	av := make([]any, len(s))
+	for i, x := range s {
+		nc[i] = ktNC{x.k, x.t, []int{x.t}}
+		av[i] = map[string]int{"k": x.k, "t": x.t}
+	}
+	sorter(nc, func(a, b ktNC) bool { return a.k < b.k })
+	sorterAny(av, func(a, b any) bool { return a.(map[string]int)["k"] < b.(map[string]int)["k"] })
+	o1, o2 := make([]kt, len(s)), make([]kt, len(s))
+	for i := range nc {
+		o1[i] = kt{nc[i].k, nc[i].t}
+		m := av[i].(map[string]int)
+		o2[i] = kt{m["k"], m["t"]}
+	}
+	return o1, o2
+}
+
+// stable sorts are deterministic: every instantiation must give the same result
+func sameNC(ref []kt, o1, o2 []kt) string {
+	want := fmtKT(ref)
+	if fmtKT(o1) != want || fmtKT(o2) != want {
+		return "instances-differ:" + want + "/" + fmtKT(o1) + "/" + fmtKT(o2)
+	}
+	return want
+}
+
+// unstable sorts: every instantiation must give the same key sequence (a sorted permutation has only one) over a permutation of the tags
+func sameKeysNC(ref []kt, o1, o2 []kt) string {
+	for _, o := range [][]kt{o1, o2} {
+		seen := make(map[int]bool)
+		for i := range ref {
+			if o[i].k != ref[i].k || seen[o[i].t] || o[i].t < 0 || o[i].t >= len(ref) {
+				return "instances-differ:" + fmtKT(ref) + "/" + fmtKT(o)
+			}
+			seen[o[i].t] = true
+		}
+	}
+	return fmtKT(ref)
+}
+
 func (c15) step(t []string) string {
 	switch t[0] {
 	case "sort":
@@ -44,19 +92,23 @@ func (c15) step(t []string) string {
 	case "sortfunc":
 		s := tagged(parseInts(t[1]))
 		slices.SortFunc(s, ktLess)
-		return fmtKT(s)
+		o1, o2 := sortNC(slices.SortFunc[[]ktNC, ktNC], slices.SortFunc[[]any, any], tagged(parseInts(t[1])))
+		return sameKeysNC(s, o1, o2)
 	case "sortdescfunc":
 		s := tagged(parseInts(t[1]))
 		slices.SortDescFunc(s, ktLess)
-		return fmtKT(s)
+		o1, o2 := sortNC(slices.SortDescFunc[[]ktNC, ktNC], slices.SortDescFunc[[]any, any], tagged(parseInts(t[1])))
+		return sameKeysNC(s, o1, o2)
 	case "sortstable":
 		s := tagged(parseInts(t[1]))
 		slices.SortStableFunc(s, ktLess)
-		return fmtKT(s)
+		o1, o2 := sortNC(slices.SortStableFunc[[]ktNC, ktNC], slices.SortStableFunc[[]any, any], tagged(parseInts(t[1])))
+		return sameNC(s, o1, o2)
 	case "sortstabledesc":
 		s := tagged(parseInts(t[1]))
 		slices.SortStableDescFunc(s, ktLess)
-		return fmtKT(s)
+		o1, o2 := sortNC(slices.SortStableDescFunc[[]ktNC, ktNC], slices.SortStableDescFunc[[]any, any], tagged(parseInts(t[1])))
+		return sameNC(s, o1, o2)
 	case "bsearch":
 		return itoa(slices.BinarySearch(parseInts(t[1]), atoi(t[2])))
 	case "bsearchunits":
